@@ -74,11 +74,13 @@ pub fn gen(rng: &mut Rng, n: usize, out: &mut Vec<String>) {
                     5 => -1,
                     _ => (rng.u128() >> 64) as i128 % (a.max(1) as i128),
                 };
-                let last: i64 = match rng.below(6) {
+                let last: i64 = match rng.below(7) {
                     0 => now - age_eff(false),
                     1 => now - age_eff(false) - 1,
                     2 => now - 100 * age_eff(false).max(1),
                     3 => now + 3,
+                    // ages that only look young after a narrowing conversion (a multiple of 2^16 / 2^32 seconds plus a little)
+                    4 => now - (*rng.pick(&[1i64 << 16, 1 << 17, 3 << 16, 1 << 32, 1 << 31])) - rng.below(age_eff(false) as u64 + 2) as i64,
                     _ => now - rng.below(age_eff(false) as u64 + 1) as i64,
                 };
                 let key_ok = !rng.chance(1, 12);
@@ -116,13 +118,14 @@ pub fn gen(rng: &mut Rng, n: usize, out: &mut Vec<String>) {
                     _ => rng.below(p.max(1)),
                 };
                 let ema_conf = if rng.chance(1, 2) { conf } else { ema.unsigned_abs() / 60 };
-                let publish = match rng.below(8) {
+                let publish = match rng.below(9) {
                     0 => now - age_eff(true),
                     1 => now - age_eff(true) - 1,
                     2 => now - age_eff(true) + 1,
                     3 => now - 10 * age_eff(true),
                     4 => now + 5,
                     5 => i64::MAX - rng.below(30) as i64,
+                    6 => now - (*rng.pick(&[1i64 << 16, 1 << 17, 3 << 16, 1 << 32, 1 << 31])) - rng.below(age_eff(true) as u64 + 2) as i64,
                     _ => now - rng.below(age_eff(true) as u64 + 1) as i64,
                 };
                 let (key_ok, owner_ok, disc_ok, full) = (!rng.chance(1, 14), !rng.chance(1, 14), !rng.chance(1, 14), !rng.chance(1, 14));
